@@ -194,7 +194,7 @@ static void part_b(report& r, std::vector<float> const& w)
             r.violate(counts[i] == 1 ? "disabled-channel-selected-at-u=0" : "disabled-channel-selected", id,
                 "channel " + std::to_string(i) + " has weight zero but was selected for " + std::to_string(counts[i]) + " of the 2^24 values");
         }
-        else if (std::fabs(got - want) > 20)
+        else if (!(std::fabs(got - want) <= 20))
         {
             r.violate("wrong-interval", id, "channel " + std::to_string(i) + " selected for " + std::to_string(counts[i])
                 + " of 2^24 equidistant values, interval length corresponds to " + vf::dec(want));
